@@ -54,10 +54,14 @@ func ZZC02_wiring() {
 		srv = zzreg.New("a.example")
 		srv.PutBlob("repo", []byte("{}"))
 		srv.PutManifest("repo", "v1", "application/vnd.oci.image.manifest.v1+json", stored)
-		header = zzInt("announced_digest", 0, 2) // 0 right, 1 none, 2 wrong
+		header = zzInt("announced_digest", 0, 3) // 0 right, 1 none, 2 wrong, 3 present but not a well-formed digest
 		srv.HeadDigest = header != 1
 		if header == 2 {
 			srv.DigestHeaderOverride = wrong.String()
+		}
+		if header == 3 {
+			// the right digest cut short / another algorithm: nothing the bytes can hash to
+			srv.DigestHeaderOverride = []string{dg.String()[:40], "md5:0123456789abcdef0123456789abcdef"}[zzInt("malformed_kind", 0, 1)]
 		}
 		reghttp.ZZHook_Client_Do = srv.Do
 		base, _ = ref.New("a.example/repo")
@@ -87,12 +91,12 @@ func ZZC02_wiring() {
 	m, err := rc.ManifestGet(ctx, r)
 	if err != nil {
 		zzReach("get_refused")
-		zzAssert(asked == 2 || header == 2, "honest_fetch_succeeds")
+		zzAssert(asked == 2 || header >= 2, "honest_fetch_succeeds")
 		return
 	}
 	zzReach("get_succeeded")
 	zzAssert(asked != 2, "returned_only_if_bytes_match_the_digest_asked_for")
-	zzAssert(!(asked == 0 && header == 2), "returned_only_if_bytes_match_the_announced_digest")
+	zzAssert(!(asked == 0 && header >= 2), "returned_only_if_bytes_match_the_announced_digest")
 	raw, rerr := m.RawBody()
 	zzAssert(rerr == nil && string(raw) == body, "raw_bytes_preserved")
 	d := m.GetDescriptor()
